@@ -8,7 +8,7 @@ BUDGET = {"quick": 2500, "thorough": 150000}
 RULE = ("compilable templates from the C04 space (string-level generator with every construct incl. ill-typed uses: each "
         "over scalars, non-numeric segments into arrays, missing params, unknown helpers/partials/decorators, '../' past the "
         "root), acyclic include graphs of 0..3 partials with partial blocks and inline partials, random JSON of depth ≤ 4, "
-        "strict on/off, prevent_indent on/off, three escape functions; the real crate runs in a child process under "
+        "strict on/off, prevent_indent on/off, three escape functions; EXHAUSTIVELY every built-in value helper on every ordered pair of an edge pool of 34 operands (sign-only and number-like strings, range ends, null, booleans, collections, missing); the real crate runs in a child process under "
         "catch_unwind; after every render a second render on the same registry must succeed; non-trivial = main template "
         "compiled; distinct by (templates, data)")
 DEFINITE_FLOOR = 0.9
@@ -37,8 +37,33 @@ def gen_case(rng: Rng, i):
     return case, {"npart": npart}
 
 
+EDGE = ["", "-", "+", ".", "-.", "e", "1e", "-x", "--", "0x", " ", "\u00e9", "-0", "1.", "NaN", "Infinity", "-1", "1e400", "00",
+        "18446744073709551616", "\u00e9\u00e9", "a\u0301", 0, -1, 2 ** 64 - 1, -(2 ** 63), None, True, False, [], [0], {}, {"-": 1}]
+
+
 def generate(rng: Rng, n, tier="quick"):
     out = []
+    # EXHAUSTIVE: every built-in value helper on every ordered pair of an edge pool of operands (one-character and sign-only
+    # strings, strings that begin like numbers, numbers at the ends of their ranges, null, booleans, empty / non-empty
+    # collections, a missing operand), from the data, in both modes – each must return output or a RenderError
+    pool = EDGE + ["<missing>"]
+    k = 0
+    for a_ in pool:
+        for b_ in pool:
+            data = {}
+            if a_ != "<missing>":
+                data["a"] = a_
+            if b_ != "<missing>":
+                data["b"] = b_
+            src = ("{{eq a b}}{{ne a b}}{{gt a b}}{{gte a b}}{{lt a b}}{{lte a b}}{{and a b}}{{or a b}}{{not a}}{{len a}}{{lookup a b}}"
+                   "{{#if (gt a b)}}x{{/if}}{{#each a}}{{lookup ../b @key}}{{/each}}{{#with a}}{{lt this ../b}}{{/with}}")
+            for strict in ((False, True) if (k % 3 == 0 or tier == "thorough") else (False,)):
+                case = session({"strict": strict, "escape": "html", "helpers": std_helpers()}, [("main", src)], {"api": "render", "name": "main"}, data)
+                case["ops"].append({"op": "reg_string", "reg": 0, "name": "after", "src": "ok:{{{n}}}"})
+                case["ops"].append({"op": "render", "reg": 0, "api": "render", "name": "after", "data": enc({"n": 7})})
+                case["id"] = "%s-edge%05d%s" % (ID, k, "s" if strict else "")
+                out.append((case, {"npart": 0}))
+            k += 1
     for i in range(n):
         c, m = gen_case(rng.fork(i), i)
         c["id"] = "%s-%06d" % (ID, i)
